@@ -1,7 +1,7 @@
 """C13 - data channel lifecycle: faithful open, forward-only states, exact bufferedAmount.  See harness/sctp_check.py (shared SCTP / data-channel check)."""
 MANIFEST = dict(
-    technique='TLA+ observable specification DataChannelObs.tla (lifecycle, id, bufferedAmount clauses) evaluated by TLC on executions of real RTCSctpTransport pairs driven by seeded random create/send/close/threshold programs under fault schedules (TraceDataChannel.tla); design-level lifecycle model DcLifecycle.tla checked by TLC',
-    text='Every datachannel/open/close/bufferedamountlow event, readyState sample, id assignment and bufferedAmount sample of every recorded execution is judged by TLC against the TLA+ clauses (exactly one faithful datachannel event, forward-only states, parity and non-collision of ids, exact buffered amount and threshold crossings, close completes at both ends, association end closes everything). Three known findings (K01-K03) are reported as KNOWN-FINDING by their specific clause.',
+    technique='TLA+ observable specification DataChannelObs.tla (lifecycle, id, bufferedAmount clauses) evaluated by TLC on executions of real RTCSctpTransport pairs driven by seeded random create/send/close/threshold programs under fault schedules (TraceDataChannel.tla); lifecycle model DcLifecycle.tla (incl. RE-CONFIG loss and retransmission) and teardown model SctpTeardown.tla checked by TLC and replayed in lock-step into real transport pairs (all model variables compared after every action); the repository\'s own data-channel tests recorded by a pytest plugin as a further trace source',
+    text='Every datachannel/open/close/bufferedamountlow event, readyState sample, id assignment and bufferedAmount sample of every recorded execution is judged by TLC against the TLA+ clauses (exactly one faithful datachannel event, forward-only states, parity and non-collision of ids, exact buffered amount and threshold crossings, close completes at both ends, association end closes everything). Two known findings (K01, K03) are reported as KNOWN-FINDING by their specific clause.',
     note='Trusted: TLC; the in-memory network and virtual-time loop of harness/sctp_env.py standing in for DTLS/UDP; the event recorder. The design-level result is exhaustive only within the stated constants and the in-flight bound; conformance of the code is sampled (lock-step replays of TLC behaviours, seeded random programs and fault schedules, saved regression schedules).',
     design_ref='5/C13')
 
